@@ -199,6 +199,16 @@ def _type_of_kind(d, kind, depth):
             if p == 'opt' and not cfg['empty_record_opt'] and _fresh_is_value(ct):
                 p = 'req'
             comps.append((ct, p))
+        if kind == 'SEQUENCE' and n >= 3 and d.pct(cfg.get('repeat_tag_pct', 15)):
+            # the same type (hence tag) again in a later OPTIONAL/DEFAULT run, a mandatory member in between: legal (X.680
+            # 25.6 asks for distinct tags only within a run and its successor) and a trap for position lookups by tag
+            i = d.int(0, n - 3)
+            ct = comps[i][0]
+            if ct['k'] != 'ANY' and (cfg['empty_record_opt'] or not _fresh_is_value(ct)) and cfg['optionals']:
+                if comps[i][1] == 'req':
+                    comps[i] = (ct, 'opt')
+                comps[i + 1] = (comps[i + 1][0], 'req')
+                comps[i + 2] = (ir.from_jsonable(ir.to_jsonable(ct)), 'opt')
         _make_distinct(d, comps, sequence_rule=(kind == 'SEQUENCE'))
         out = []
         for i, (ct, p) in enumerate(comps):
